@@ -171,7 +171,10 @@ RAW_NAMES = ["id", "class_", "class", "style", "title", "data_x", "data-x", "x_"
 def rand_value(rng, hostile_p=0.6):
     r = rng.random()
     if r < hostile_p:
-        return {"t": "str", "s": gen.text_of(rng)}
+        v_ = {"t": "str", "s": gen.text_of(rng)}
+        if rng.random() < 0.1:
+            v_["sub"] = True
+        return v_
     if r < hostile_p + 0.12:
         return HV(rng.choice(["h", "a&amp;b", "x y", "&lt;i&gt;", "50%", "q=1&r=2", ""]))
     if r < hostile_p + 0.2:
